@@ -418,3 +418,48 @@ PROPS["C02"]["rule"] = _TX_RULE + _LINK_RULE
 for _p in ("C01", "C03"):
     PROPS[_p]["components"] = PROPS[_p]["components"] + ["link"]
     PROPS[_p]["rule"] = PROPS[_p]["rule"] + _LINK_RULE
+
+PROPS["C11"] = {
+    "props_files": ["C11"],
+    "theorems": ["C11_put_ids_distinct", "C11_put_counter", "C11_forward_frame", "C11_stray_to_sender_discarded",
+                 "C11_no_transport_discarded", "C11_unknown_to_receiver_spawns", "C11_command_frame",
+                 "C11_cleanup_only_removes"],
+    "components": ["daemon"],
+    "rule": ("cases = scripts against TWO real Daemons (entities 1 and 2; entity 3 has no transport anywhere) whose three handlers "
+             "(forward_pdu, process_primitive, cleanup_transactions) are called one at a time through cfg(cfdp_verif) hooks on "
+             "tokio's paused clock, joined by in-memory transports the script controls; the transactions they spawn are the real "
+             "tokio tasks. Scripts: 2-14 overlapping Put requests in both directions in mixed modes with distinct destination "
+             "files (some for a missing file, some to the transport-less entity), PDUs moved in bursts, stray PDUs of 9 kinds with "
+             "unknown ids in both directions (some naming entity 3), replays of PDUs delivered earlier, cleanups, small time "
+             "steps; 60% clean, 20% lossy (drops/duplicates/long delays), 10% user commands at either end, 10% sequence-number "
+             "wrap-around (1-byte ids starting near 255); every script ends with the daemons left alone until quiescence, then one "
+             "more Put that must complete. Every handler call is one event (with the two run-time facts routing depends on: "
+             "channel closed, file exists) replayed through the extracted Model/Daemon.v; result class, both routing tables and "
+             "both sequence counters must agree after every event. non-trivial = at least 2 events; distinct = distinct op-list text"),
+    "explanation": ("Theorems over Model/Daemon.v, the routing core of lib.rs (table of registered transactions keyed by (source entity, "
+                    "sequence number), sequence counter, transports), for all tables and PDU headers. Tied to the code by replaying "
+                    "every handler call the real daemons make through the extracted model, and by the property's own oracle on the "
+                    "real daemons: ids of Put requests distinct; each transaction that reports success delivered ITS source to ITS "
+                    "destination; in clean scripts every transaction completes at both ends although strays and replays are mixed "
+                    "in; the metadata a transaction receives is its own; after the final run no transaction is left registered "
+                    "(stray-spawned receive transactions ended by their own limits); a fresh transfer afterwards completes (the "
+                    "daemon keeps serving)."),
+    "level_text": ("Proof (PARTIAL) on the routing model: up to 2^(8w) consecutive Put requests get pairwise distinct ids; a PDU reaches, "
+                   "creates or replaces only the transaction registered under its own (source entity, sequence number) and leaves every "
+                   "other registration and the counter untouched; a response for a sender that does not exist and a PDU naming an "
+                   "entity without transport change nothing and yield only a logged warning; a ToReceiver PDU with an unknown id "
+                   "registers a receive transaction under exactly that id (which ends by its own limits, C03); user commands reach only "
+                   "the transaction they name; cleanup only removes. Event-by-event correspondence with two real daemons plus the "
+                   "property's oracle on them."),
+    "level_note": ("Trusted: Coq kernel; extraction (ExtrOcamlBasic); OCaml driver and Rust harness; tokio's paused clock and current-thread "
+                   "scheduler. NOT mechanised / outside the model: the behaviour of the transaction tasks (they are the real ones; their "
+                   "models are Recv.v/Send.v/Link.v), interference through the runtime (channel capacities 100/10/1, a task that panics, "
+                   "tokio fairness, select! order inside manage_transactions - the hooks call its three handlers directly), the transport "
+                   "tasks and UDP, id widths (all ids of a configuration have one width), wrap-around of the counter onto a LIVE "
+                   "transaction after 2^(8w) Puts (HashMap::insert would replace its registration; inherent to a w-byte sequence "
+                   "number, not counted as a finding). Which registrations a cleanup removes is an input of the model (decided by task "
+                   "completion). Forged PDUs carrying the id of a live transaction are outside the property."),
+    "assumptions": ["all entity ids and sequence numbers of one configuration are encoded with the same width",
+                    "fewer than 2^(8w) Put requests while a transaction of the same entity is alive",
+                    "timeouts >= 1 s, max_count >= 1 (as for the transaction properties)"],
+}
